@@ -41,7 +41,7 @@ fn attach(name: &str, handle: u32, target: TargetArchetype) -> Attach {
 }
 
 /// send one delivery in `frames` transfer frames; returns its delivery-id, or Err if a frame would exceed MFS
-fn send_delivery(peer: &mut Peer, cli: &mut Cli, handle: u32, state: Option<DeliveryState>, payload: &[u8], frames: usize) -> Result<u32, String> {
+fn send_delivery(peer: &mut Peer, cli: &mut Cli, handle: u32, state: Option<DeliveryState>, payload: &[u8], frames: usize, settled: bool) -> Result<u32, String> {
     let did = cli.next_tid;
     let tag = cli.next_tag;
     cli.next_tag += 1;
@@ -55,7 +55,7 @@ fn send_delivery(peer: &mut Peer, cli: &mut Cli, handle: u32, state: Option<Deli
             delivery_id: first.then_some(did),
             delivery_tag: first.then(|| ByteBuf::from(tag.to_be_bytes().to_vec())),
             message_format: first.then_some(0),
-            settled: first.then_some(false),
+            settled: first.then_some(settled),
             more: j + 1 < n,
             rcv_settle_mode: None,
             state: state.clone(),
@@ -141,8 +141,8 @@ fn lib_ended(tr: &[WFrame]) -> bool {
     tr.iter().any(|w| w.dir == Dirn::FromLib && matches!(&w.body, Body::Perf(Performative::End(_)) | Body::Perf(Performative::Close(_))))
 }
 
-pub async fn scenario(events: Vec<Ev>) -> Obs {
-    let series = Series::S2;
+pub async fn scenario(events: Vec<Ev>, presettled: bool) -> Obs {
+    let series = if presettled { Series::S2Settled } else { Series::S2 };
     let mut obs = Obs::default();
     let (pipe, a, _b) = Pipe::new();
     let sh: Sh = Default::default();
@@ -242,7 +242,7 @@ pub async fn scenario(events: Vec<Ev>) -> Obs {
             Ev::Declare => {
                 let slot = model.free_slot().unwrap();
                 let ch = cli.ctl_handle.unwrap();
-                match send_delivery(&mut peer, &mut cli, ch, None, &msg_bytes(Declare { global_id: None }), 1) {
+                match send_delivery(&mut peer, &mut cli, ch, None, &msg_bytes(Declare { global_id: None }), 1, false) {
                     Err(m) => obs.machinery = Some(m),
                     Ok(did) => {
                         settle(&mut peer, 3).await;
@@ -275,7 +275,7 @@ pub async fn scenario(events: Vec<Ev>) -> Obs {
                     };
                     (Some(DeliveryState::TransactionalState(TransactionalState { txn_id: ByteBuf::from(id), outcome: None })), status)
                 };
-                match send_delivery(&mut peer, &mut cli, link as u32 - 1, state, &payload, if link == 1 { 1 } else { 3 }) {
+                match send_delivery(&mut peer, &mut cli, link as u32 - 1, state, &payload, if link == 1 { 1 } else { 3 }, presettled) {
                     Err(m) => obs.machinery = Some(m),
                     Ok(did) => {
                         if link == 2 {
@@ -318,7 +318,7 @@ pub async fn scenario(events: Vec<Ev>) -> Obs {
                 };
                 let body = msg_bytes(Discharge { txn_id: ByteBuf::from(id), fail: Some(!commit) });
                 let ch = cli.ctl_handle.unwrap();
-                match send_delivery(&mut peer, &mut cli, ch, None, &body, 1) {
+                match send_delivery(&mut peer, &mut cli, ch, None, &body, 1, false) {
                     Err(m) => obs.machinery = Some(m),
                     Ok(did) => {
                         settle(&mut peer, 3).await;
